@@ -20,6 +20,7 @@ package main
 //                   claim on a tree without the F2 repair)
 
 import (
+	"encoding/hex"
 	"encoding/json"
 	"fmt"
 	"math/big"
@@ -29,12 +30,17 @@ import (
 	"sort"
 	"strings"
 	"sync"
+	"time"
 
 	sifapp "github.com/Sifchain/sifnode/app"
 	clptypes "github.com/Sifchain/sifnode/x/clp/types"
 	ethbridgetypes "github.com/Sifchain/sifnode/x/ethbridge/types"
 	sdk "github.com/cosmos/cosmos-sdk/types"
 	banktypes "github.com/cosmos/cosmos-sdk/x/bank/types"
+	"github.com/cosmos/cosmos-sdk/x/capability"
+	"github.com/cosmos/cosmos-sdk/x/upgrade"
+	abci "github.com/tendermint/tendermint/abci/types"
+	tmproto "github.com/tendermint/tendermint/proto/tendermint/types"
 )
 
 func argAfter(flag string) string {
@@ -323,6 +329,101 @@ func dewhitelistHistory(seed uint64, rng *Rng) *Pilot {
 	return p
 }
 
+// ---- history: restart-validatebasic (finding F25) -------------------------------------------------
+// Six blocks; a `restarted` execution restarts just before block index 2 and 4.  Both of those blocks START
+// with a transaction that fails the stateless ValidateBasic (a proposer can include one; honest mempools do
+// not), followed by ordinary transactions.
+
+func restartVBHistory(seed uint64, rng *Rng) *Pilot {
+	p := NewPilot("restart-validatebasic", seed, rng, GenesisOpts{NUsers: 4, ValPowers: []int64{10}, EpochSeconds: 3600}, 600)
+	u, v := p.W.Users[0], p.W.Users[1]
+	ceth := clptypes.NewAsset("ceth")
+	lowFeeLock := func(a *Acct) {
+		m := ethbridgetypes.NewMsgLock(1, a.Addr, ethSender, sdk.NewIntFromBigInt(pow10(18)), "rowan", sdk.NewInt(1))
+		p.Tx("bridge.lock.lowfee", a, &m)
+	}
+	sameAssetSwap := func(a *Acct) {
+		m := clptypes.NewMsgSwap(a.Addr, ceth, ceth, sdk.NewUint(1000), sdk.ZeroUint())
+		p.Tx("clp.swap.sameasset", a, &m)
+	}
+	send := func(a, b *Acct) {
+		p.Tx("bank.send", a, banktypes.NewMsgSend(a.Addr, b.Addr, sdk.NewCoins(coin("rowan", pow10(18)))))
+	}
+	for b := 0; b < 6; b++ {
+		p.Begin()
+		switch b {
+		case 0:
+			p.CreatePool(u, "ceth")
+			send(u, v)
+		case 2, 4: // first block after a restart
+			if b == 2 {
+				lowFeeLock(v)
+			} else {
+				sameAssetSwap(v)
+			}
+			send(u, v)
+			if ps := p.pools(); len(ps) > 0 {
+				p.Swap(u, ps, false)
+			}
+			sameAssetSwap(u)
+		default:
+			send(v, u)
+			lowFeeLock(u) // a stateless-invalid transaction in a block that does not follow a restart
+			if ps := p.pools(); len(ps) > 0 {
+				p.AddLiquidity(v, ps[0])
+			}
+		}
+		p.End()
+	}
+	return p
+}
+
+// restartGasProbe attributes the extra BeginBlock gas of a restarted node: it replays the history up to the
+// first restart point on two chains, restarts one of them, and runs the two BeginBlockers that keep
+// process-local "already done" state on a context with a fresh infinite gas meter.
+func restartGasProbe(spec *Spec) map[string]int64 {
+	res := map[string]int64{}
+	measure := func(restart bool) (capGas, upgGas int64) {
+		c := NewChain(spec)
+		k := len(spec.Blocks) / 3
+		for i := 0; i < k; i++ {
+			b := spec.Blocks[i]
+			prop, _ := hex.DecodeString(b.Proposer)
+			c.Begin(b.Height, b.Time, prop)
+			for _, t := range b.Txs {
+				raw, _ := hex.DecodeString(t)
+				c.Deliver(raw)
+			}
+			c.End()
+		}
+		if restart {
+			c.Restart()
+		}
+		b := spec.Blocks[k]
+		hdr := tmproto.Header{ChainID: chainID, Height: b.Height, Time: time.Unix(b.Time, 0).UTC()}
+		ctx := c.App.BaseApp.NewContext(true, hdr).WithGasMeter(sdk.NewInfiniteGasMeter())
+		g0 := ctx.GasMeter().GasConsumed()
+		capability.BeginBlocker(ctx, *c.App.CapabilityKeeper)
+		g1 := ctx.GasMeter().GasConsumed()
+		upgrade.BeginBlocker(c.App.UpgradeKeeper, ctx, abci.RequestBeginBlock{Header: hdr})
+		g2 := ctx.GasMeter().GasConsumed()
+		return int64(g1 - g0), int64(g2 - g1)
+	}
+	defer func() {
+		if r := recover(); r != nil {
+			res["probe_panicked"] = 1
+		}
+	}()
+	c0, u0 := measure(false)
+	c1, u1 := measure(true)
+	res["capability.BeginBlocker.running"] = c0
+	res["capability.BeginBlocker.after_restart"] = c1
+	res["upgrade.BeginBlocker.running"] = u0
+	res["upgrade.BeginBlocker.after_restart"] = u1
+	res["extra_after_restart"] = (c1 - c0) + (u1 - u0)
+	return res
+}
+
 func init() {
 	families["replay"] = func(rng *Rng, n int, out *Out, replay string) {
 		N := n
@@ -337,6 +438,7 @@ func init() {
 		for _, mk := range []func() (*Pilot, string){
 			func() (*Pilot, string) { return mainHistory(seed, rng, blocks), "main" },
 			func() (*Pilot, string) { return dewhitelistHistory(seed, rng), "oracle-dewhitelist-tie" },
+			func() (*Pilot, string) { return restartVBHistory(seed, rng), "restart-validatebasic" },
 			func() (*Pilot, string) { return ghostHistory(seed, rng, false), "genesis-lps-without-accounts.lppd" },
 			func() (*Pilot, string) { return ghostHistory(seed, rng, true), "genesis-lps-without-accounts.epoch" },
 		} {
@@ -353,6 +455,9 @@ func init() {
 			how = append([]string(nil), how...)
 			sort.Strings(how)
 			info[tag] = map[string]interface{}{"blocks": len(p.Spec.Blocks), "txs": ntx, "executions": how, "events": p.Events}
+			if tag == "restart-validatebasic" {
+				out.Extra["F25_begin_block_gas_probe"] = restartGasProbe(p.Spec)
+			}
 		}
 		out.Extra["tx_result_hist"] = hist
 		out.Extra["histories"] = info
